@@ -635,6 +635,10 @@ macro_rules! impl_nio_read_iovec {
                             if blocking {
                                 $crate::syscall::set_blocking($fd);
                             }
+                            if received > 0 {
+                                // report what has been transferred so far, not the last call's result
+                                r = received.try_into().expect("received overflow");
+                            }
                             return r;
                         }
                     }
@@ -645,6 +649,9 @@ macro_rules! impl_nio_read_iovec {
                 std::mem::forget(vec);
                 if blocking {
                     $crate::syscall::set_blocking($fd);
+                }
+                if received > 0 {
+                    r = received.try_into().expect("received overflow");
                 }
                 r
             }
@@ -852,6 +859,10 @@ macro_rules! impl_nio_write_iovec {
                             if blocking {
                                 $crate::syscall::set_blocking($fd);
                             }
+                            if sent > 0 {
+                                // report what has been transferred so far, not the last call's result
+                                r = sent.try_into().expect("sent overflow");
+                            }
                             return r;
                         }
                     }
@@ -862,6 +873,9 @@ macro_rules! impl_nio_write_iovec {
                 std::mem::forget(vec);
                 if blocking {
                     $crate::syscall::set_blocking($fd);
+                }
+                if sent > 0 {
+                    r = sent.try_into().expect("sent overflow");
                 }
                 r
             }
